@@ -270,6 +270,7 @@ pub struct SessionResult {
     pub lines_after_failure: u64,
     pub heap_values_crossed_lines: bool,
     pub read_poisoned: bool,
+    pub inconsistent_why: String,
 }
 
 const HEAP_CLASSES: &[&str] = &[
@@ -397,6 +398,7 @@ pub fn run_session(spec: &SessionSpec, verbose: bool) -> SessionResult {
         lines_after_failure: 0,
         heap_values_crossed_lines: false,
         read_poisoned: false,
+        inconsistent_why: String::new(),
     };
     let mut last_fail = "none".to_string();
     let mut skeleton: Vec<String> = Vec::new();
@@ -416,8 +418,9 @@ pub fn run_session(spec: &SessionSpec, verbose: bool) -> SessionResult {
         }
         // what the generator promised must be what the model says, else the case is discarded
         let promised_ok = line.fail == Fail::None;
-        if promised_ok != m.outcome.is_ok() {
+        if promised_ok != m.outcome.is_ok() && !reads_poisoned {
             res.inconsistent = true;
+            res.inconsistent_why = format!("[{}] promised {:?}, model says {} :: {}", line.label, line.fail, m.outcome.render().chars().take(90).collect::<String>(), text.chars().take(160).collect::<String>());
             if verbose {
                 res.transcript.push(format!("line {} discarded: generator promised {:?}, model says {}", li, line.fail, m.outcome.render()));
             }
@@ -1105,7 +1108,7 @@ impl<'a> SGen<'a> {
 }
 
 const RUN_FAILS: &[&str] = &["(1 + ja);", "[1, 2][5];", "int(\"x\");", "lengte(1);", "(!5);", "[\"a\", (2.5 + 1)];", "\"abc\"[7];"];
-const PARSE_FAILS: &[&str] = &["stel = 1", "(1 + ", "[1, 2", "als { }", "1 +", "stel q 5", "zolang ja", "{ 1; ", "\"abc", "1 2 )"];
+const PARSE_FAILS: &[&str] = &["stel = 1", "(1 + ", "[1, 2", "als { }", "1 +", "stel q 5", "zolang ja", "{ 1; ", "stel q = \"abc", "1 2 )"];
 
 impl<'a> SGen<'a> {
     fn ok_line(&mut self, progressive: bool) -> SLine {
@@ -1547,10 +1550,20 @@ pub fn small_session(seed: u64, i: u64) -> SessionSpec {
 // ---------------------------------------------------------------------------------------------
 // scenarios
 
+/// Quick tier: besides all sessions of length 1-2, every "sandwich" of three lines
+/// (a declaration, any failing template, an observing template) - the length-3 sessions that matter most.
+const SANDWICH_SETUP: &[usize] = &[0, 2, 3];
+const SANDWICH_FAIL: &[usize] = &[12, 13, 14, 15, 16, 17, 18, 23, 24, 27];
+const SANDWICH_OBSERVE: &[usize] = &[5, 6, 7, 9, 10, 19, 20, 21, 22, 26];
+
+fn sandwiches() -> u64 {
+    (SANDWICH_SETUP.len() * SANDWICH_FAIL.len() * SANDWICH_OBSERVE.len()) as u64
+}
+
 pub fn enumerated_count(tier: Tier) -> u64 {
     let a = ALPHABET as u64;
     match tier {
-        Tier::Quick => a + a * a,
+        Tier::Quick => a + a * a + sandwiches(),
         Tier::Thorough => a + a * a + a * a * a,
     }
 }
@@ -1593,6 +1606,9 @@ fn account(acc: &mut Acc, spec: &SessionSpec, r: &SessionResult) {
     acc.count("probe_lines_run_after_a_failed_line", r.lines_after_failure);
     if r.inconsistent {
         acc.count("sessions_discarded_inconsistent", 1);
+        if std::env::var("NLSIM_DEBUG_INCONSISTENT").is_ok() && !r.inconsistent_why.is_empty() {
+            eprintln!("INCONSISTENT {}", r.inconsistent_why);
+        }
     }
     if r.injected_fired {
         acc.count("fault_injected_failure_fired", 1);
@@ -1691,6 +1707,15 @@ pub fn scenario(acc: &mut Acc, seed: u64, index: u64, tier: Tier) {
         } else if code < a + a * a {
             code -= a;
             2
+        } else if tier == Tier::Quick {
+            // sandwich: encode (setup, fail, observe) as a base-ALPHABET number, first line = lowest digit
+            code -= a + a * a;
+            let so = SANDWICH_SETUP.len() as u64;
+            let fo = SANDWICH_FAIL.len() as u64;
+            let (i0, rest) = (code % so, code / so);
+            let (i1, i2) = (rest % fo, rest / fo);
+            code = SANDWICH_SETUP[i0 as usize] as u64 + a * (SANDWICH_FAIL[i1 as usize] as u64 + a * SANDWICH_OBSERVE[i2 as usize] as u64);
+            3
         } else {
             code -= a + a * a;
             3
